@@ -50,6 +50,8 @@ type Stats struct {
 	MaxCaseCPUms int64  `json:"max_case_cpu_ms"`
 	MaxCaseKind  string `json:"max_case_kind,omitempty"`
 	MaxCaseIdx   int64  `json:"max_case_idx,omitempty"`
+	// MaxKindCPUms is the same per kind of case.
+	MaxKindCPUms map[string]int64 `json:"max_kind_cpu_ms,omitempty"`
 }
 
 // NewStats returns an empty statistics value.
@@ -119,6 +121,14 @@ func (s *Stats) Merge(t *Stats, maxSamples int) {
 	s.Inconclusive = append(s.Inconclusive, t.Inconclusive...)
 	if t.MaxCaseCPUms > s.MaxCaseCPUms {
 		s.MaxCaseCPUms, s.MaxCaseKind, s.MaxCaseIdx = t.MaxCaseCPUms, t.MaxCaseKind, t.MaxCaseIdx
+	}
+	for k, v := range t.MaxKindCPUms {
+		if s.MaxKindCPUms == nil {
+			s.MaxKindCPUms = map[string]int64{}
+		}
+		if v > s.MaxKindCPUms[k] {
+			s.MaxKindCPUms[k] = v
+		}
 	}
 }
 
